@@ -584,6 +584,13 @@ def call_builtin(it, fn, args, kwargs, node, fr):
             return map1(lambda t: mk("float", t), v)
         r = map1(lambda t: mk("int", t), v)
         return r
+    if fn == "next" and args and isinstance(args[0], Seq) and args[0].kind in ("list", "tuple", "gen"):
+        # next(<enumerated generator>, default): its first element, or the default when there is none
+        if args[0].items:
+            return args[0].items[0]
+        if len(args) > 1:
+            return args[1]
+        raise Unsupported("next() of an empty generator without a default (StopIteration)", node)
     if fn == "str" and args:
         if is_pyconst(args[0]):
             return K(str(pyval(args[0])))
